@@ -1,10 +1,138 @@
 /-
-  TwProofs.C12 — property theorems (see DESIGN.md, section 6).
+  TwProofs.C12 — Go data passed to a render is visible with the same structure.
 -/
-import TwModel
-import TwSpec
+import TwProofs.Lemmas.Sort
 
 namespace Tw.C12
 open Tw
+
+/-- scalars convert to the equal value -/
+theorem scalars (bv : Bool) (s : Bytes) (i : Int) (f : Float) :
+    nativeToObject (.bool bv) = some (.bool bv) ∧ nativeToObject (.str s) = some (.str s) ∧
+    nativeToObject (.int i) = some (.int (Int64.ofInt i)) ∧ nativeToObject (.float f) = some (.float f) ∧
+    nativeToObject .nilIface = some .nil := by
+  simp [nativeToObject]
+
+/-- a nil pointer is nil; a pointer is transparent -/
+theorem pointers (g : GoVal) : nativeToObject (.ptr none) = some .nil ∧ nativeToObject (.ptr (some g)) = nativeToObject g := by
+  simp [nativeToObject]
+
+/-- a value of another kind makes the conversion fail (the Go code returns a nil Object and
+    `EnvFromMap` reports `unsupported type`) — at the top and, by the next theorems, at any depth -/
+theorem other_kind_fails (k : String) : nativeToObject (.other k) = none := by simp [nativeToObject]
+
+theorem slice_fails_iff (xs : List GoVal) : nativeToObject (.slice xs) = none ↔ nativeList xs = none := by
+  simp [nativeToObject]
+
+theorem list_fails_iff : ∀ xs : List GoVal, nativeList xs = none ↔ ∃ x ∈ xs, nativeToObject x = none
+  | [] => by simp [nativeList]
+  | x :: r => by
+    simp only [nativeList]
+    cases hx : nativeToObject x with
+    | none => simp [hx]
+    | some v =>
+      have := list_fails_iff r
+      simp only [List.mem_cons, exists_eq_or_imp, hx, reduceCtorEq, false_or]
+      rw [← this]
+      cases nativeList r <;> simp
+
+theorem map_fails_iff : ∀ kvs : List (Bytes × GoVal), nativePairs kvs = none ↔ ∃ p ∈ kvs, nativeToObject p.2 = none
+  | [] => by simp [nativePairs]
+  | (k, x) :: r => by
+    simp only [nativePairs]
+    cases hx : nativeToObject x with
+    | none => simp [hx]
+    | some v =>
+      have := map_fails_iff r
+      simp only [List.mem_cons, exists_eq_or_imp, hx, reduceCtorEq, false_or]
+      rw [← this]
+      cases nativePairs r <;> simp
+
+/-- only exported fields are looked at: a struct fails iff an exported field fails -/
+theorem struct_fails_iff : ∀ fs : List (Bytes × Bool × GoVal),
+    nativeFields fs = none ↔ ∃ p ∈ fs, p.2.1 = true ∧ nativeToObject p.2.2 = none
+  | [] => by simp [nativeFields]
+  | (k, ex, x) :: r => by
+    simp only [nativeFields]
+    have := struct_fails_iff r
+    cases ex with
+    | false => simp [this]
+    | true =>
+      simp only [Bool.not_true, Bool.false_eq_true, if_false]
+      cases hx : nativeToObject x with
+      | none => simp [hx]
+      | some v =>
+        simp only [List.mem_cons, exists_eq_or_imp, hx, reduceCtorEq, and_false, false_or]
+        rw [← this]
+        cases nativeFields r <;> simp
+
+/-- the elements of a slice are visible by position -/
+theorem slice_elements (xs : List GoVal) (vs : List Val) (h : nativeList xs = some vs) :
+    nativeToObject (.slice xs) = some (.arr vs) := by simp [nativeToObject, h]
+
+theorem list_length : ∀ (xs : List GoVal) (vs : List Val), nativeList xs = some vs → vs.length = xs.length
+  | [], vs, h => by simp [nativeList] at h; subst h; rfl
+  | x :: r, vs, h => by
+    simp only [nativeList] at h
+    cases hx : nativeToObject x with
+    | none => simp [hx] at h
+    | some v =>
+      cases hr : nativeList r with
+      | none => simp [hx, hr] at h
+      | some vr =>
+        simp [hx, hr] at h; subst h
+        simp [list_length r vr hr]
+
+/-- the keys of a map are reachable by name: the converted object holds, for every key, the
+    converted value (the entries are key-sorted, the lookup does not care) -/
+theorem mapGet_sortByKey {α} (l : List (Bytes × α)) (hd : KeysDistinct l) (k : Bytes) : mapGet (sortByKey l) k = mapGet l k := by
+  have hperm := sortByKey_perm l
+  have hd' : KeysDistinct (sortByKey l) := List.Pairwise.perm hd hperm.symm (fun h e => h e.symm)
+  -- lookup in a list with distinct keys = membership
+  have key : ∀ (m : List (Bytes × α)), KeysDistinct m → ∀ v, mapGet m k = some v ↔ (k, v) ∈ m := by
+    intro m
+    induction m with
+    | nil => intro _ v; simp [mapGet]
+    | cons p r ih =>
+      intro hm v
+      obtain ⟨pk, pv⟩ := p
+      have hm' := List.pairwise_cons.mp hm
+      simp only [mapGet]
+      by_cases hk : pk = k
+      · subst hk
+        simp only [beq_self_eq_true, if_true, Option.some.injEq, List.mem_cons, Prod.mk.injEq, true_and]
+        constructor
+        · intro h; exact Or.inl h.symm
+        · intro h
+          rcases h with h | h
+          · exact h.symm
+          · exact absurd rfl (hm'.1 (pk, v) h)
+      · have : (pk == k) = false := by simpa using hk
+        simp only [this, Bool.false_eq_true, if_false, List.mem_cons, Prod.mk.injEq]
+        rw [ih hm'.2 v]
+        constructor
+        · intro h; exact Or.inr h
+        · intro h
+          rcases h with ⟨h, _⟩ | h
+          · exact absurd h.symm hk
+          · exact h
+  cases h1 : mapGet (sortByKey l) k with
+  | some v =>
+    have := (key _ hd' v).mp h1
+    exact ((key l hd v).mpr (hperm.subset this)).symm
+  | none =>
+    cases h2 : mapGet l k with
+    | none => rfl
+    | some v =>
+      have := (key l hd v).mp h2
+      have := (key _ hd' v).mpr (hperm.symm.subset this)
+      rw [h1] at this; exact absurd this (by simp)
+
+/-! non-vacuity -/
+
+example : nativeToObject (.struct [(b "Name", true, .str (b "x")), (b "secret", false, .other "chan"), (b "P", true, .ptr none)]) =
+    some (.obj [(b "Name", .str (b "x")), (b "P", .nil)]) := by rfl
+
+example : nativeToObject (.map [(b "k", .slice [.int 1, .other "func"])]) = none := by rfl
 
 end Tw.C12
